@@ -490,15 +490,16 @@ pub proof fn lemma_steps_snoc(t: STerm, n: nat, r: STerm)
 }
 
 // ---- TRUSTED: the physical size bound used by `evaluate` ------------------------------------------
-// A hole-free term whose indices, binder depth and group sizes are below 2^60 actually has them below
-// 2^57: every binder on a path is a distinct heap object of at least 16 bytes, and the terms `evaluate`
-// is called on are closed (main.rs checks the program in the empty context), so every index is below
-// the binder depth.  2^57 such objects do not fit in a 64-bit address space.  Hole-freeness and the
-// 2^60 bound themselves are PROVED to be preserved by every step (lemma_step_ok); only the gap between
-// 2^57 and 2^60 is assumed here.
+// A hole-free CLOSED term whose indices, binder depth and group sizes are below 2^60 actually has them
+// below 2^57: every binder on a path is a distinct heap object of at least 16 bytes, every index of a
+// closed term is below the number of binders above it, and 2^57 such objects do not fit in a 64-bit
+// address space.  Hole-freeness, closedness and the 2^60 bound themselves are PROVED to be preserved by
+// every step (lemma_step_ok, lemma_step_closed); only the gap between 2^57 and 2^60 is assumed here.
 #[verifier::external_body]
 pub proof fn axiom_term_fits(t: Term)
-    requires s_ok(view(t), 0, BOUND() as nat),
+    requires
+        s_ok(view(t), 0, BOUND() as nat),
+        s_closed_at(view(t), 0),
     ensures s_ok(view(t), 0, SB() as nat),
 {
 }
